@@ -172,10 +172,11 @@ def statement_pairs(check, wp, family, seed, npairs, maxchoices=6):
             continue
         if r.get("nerr", 1) > 0 or not r.get("path_ok"):
             bad.append((a, b, ver, "sequence-of-valid-statements-rejected", r.get("nerr")))
-        elif [x[1] for x in r["fps"]] != [fp[a], fp[b]]:
-            bad.append((a, b, ver, "sequence-not-the-two-statements", [x[2] for x in r["fps"]]))
-        elif r.get("shared"):
-            bad.append((a, b, ver, "shared-node", r["shared"]))
+        else:
+            if [x[1] for x in r["fps"]] != [fp[a], fp[b]]:
+                bad.append((a, b, ver, "sequence-not-the-two-statements", [x[2] for x in r["fps"]]))
+            if r.get("shared"):
+                bad.append((a, b, ver, "shared-node", r["shared"]))
     check.cov["statement_pairs_%s" % family] = len(pairs)
     check.cov["single_statements_%s" % family] = len(good)
     return bad
